@@ -93,6 +93,11 @@ func ParseName(name string) (NameInfo, error) {
 	if err != nil {
 		return empty, fmt.Errorf("timestamp parse error: %s", err)
 	}
+	if NameTimestamp(ts) != ni.TimestampString {
+		// time.Parse is lenient (e.g. it accepts a sign in the fraction), but
+		// only the canonical encoding sorts like the time it represents
+		return empty, fmt.Errorf("timestamp not in canonical form: %s in %s", ni.TimestampString, name)
+	}
 	ni.Timestamp = ts
 	return ni, nil
 }
